@@ -90,7 +90,8 @@ Parse(file, sep) == ParseEnd(FoldLeft(LAMBDA p, c : ParseStep(p, c, sep), P0, fi
 -----------------------------------------------------------------------------
 (* Group "design": tables of text; rows[1] is the header                      *)
 
-Alphabet == {"a", COMMA, TAB, Q, NL}
+SP == " "
+Alphabet == {"a", SP, COMMA, TAB, Q, NL}      \* the blank is data: RFC 4180 readers keep it
 CellsUpTo(n) == UNION {[1..k -> Alphabet] : k \in 0..n}
 hH == <<"h">>
 hG == <<"g">>
@@ -143,6 +144,11 @@ SpecialStrs == {S(<<>>),
                 S(<<"a", Q, "b", COMMA, "c">>),
                 S(<<"a", Q, TAB, "c">>),
                 S(<<"a", " ", "b">>),
+                S(<<" ", "a">>),                 \* leading blank
+                S(<<"a", " ">>),                 \* trailing blank
+                S(<<" ", "a", " ", "b", " ">>),
+                S(<<" ">>),                      \* only blanks
+                S(<<" ", " ">>),
                 S(<<"a", NL, "b">>)}
 IntsIO   == {I(<<"0">>), I(<<"1","0">>)}
 FloatsIO == {F(<<"0",".","5">>), F(<<"1",".","5">>)}
@@ -179,7 +185,7 @@ IOTables(profile) ==      \* (a parameter keeps TLC from building the set when i
     \cup TablesOf(<<<<"f">>, <<"b">>, <<"m">>>>, <<FloatsIO, BoolsIO, {None, S(<<"a">>)}>>, 0, MaxRowsIO)
     \cup UNION {TablesOf(<<h, <<"x">>>>, <<IntsIO, {S(<<"a">>)}>>, 1, 1) :
                    h \in {<<"a", COMMA, "b">>, <<"t", TAB, "u">>, <<"q", Q, "r">>, <<Q, "h", Q>>, <<"a", " ", "b">>}}
-    \cup TablesOf(<<<<"s">>>>, <<{S(<<>>), S(<<"a">>)}>>, 0, 2)
+    \cup TablesOf(<<<<"s">>>>, <<{S(<<>>), S(<<"a">>), S(<<" ">>), S(<<" ", "a">>)}>>, 0, 2)
     \cup TablesOf(<<<<"k">>>>, <<IntsIO>>, 0, 2)
     \cup TablesOf(<<<<"m">>, <<"k">>>>, <<{None, I(<<"0">>)}, IntsIO>>, 1, 2)
 
@@ -219,6 +225,9 @@ CharClass(chars, sep) ==
     ELSE IF chars[1] = Q THEN "leading-quote"
     ELSE IF Has(chars, Q) THEN "inner-quote"
     ELSE IF Has(chars, sep) THEN "sep"
+    ELSE IF \A i \in 1..Len(chars) : chars[i] = " " THEN "blank-only"
+    ELSE IF chars[1] = " " \/ chars[Len(chars)] = " " THEN "edge-blank"
+    ELSE IF Has(chars, " ") THEN "inner-blank"
     ELSE "plain"
 CaseClass(t, path) ==
     LET sep == SepOf(path)
